@@ -151,7 +151,7 @@ def _build(tier):
         if proofs_built:     # every proof module in one environment: a name declared twice anywhere is an error here
             f.write("".join("import Proofs.%s\n" % x[:-5] for x in sorted(os.listdir(os.path.join(LEAN, "Proofs"))) if x.endswith(".lean")))
         if gen.get("built"):
-            f.write("import Gen.Lifted\n" + ("import Gen.StorageEq\n" if os.path.exists(os.path.join(LEAN, "Gen", "StorageEq.lean")) else ""))
+            f.write("import Gen.Lifted\n" + "".join("import Gen.%s\n" % m for m in ("StorageEq", "StorageRun") if os.path.exists(os.path.join(LEAN, "Gen", m + ".lean"))))
         f.write("".join("#print axioms %s\n" % n for n in built_names))
         if gen.get("built"):
             f.write("".join("#print axioms Traph.Gen.%s\n" % n for n in gen["names"]))
@@ -209,7 +209,7 @@ def build_gen(py):
     if rc != 0:
         gen["log"] = "\n".join(l for l in out.split("\n") if not l.startswith(("info:", "ℹ", "✔")))[-2500:]
         return gen
-    for f in ("HelpersEq.lean", "Lifted.lean", "StorageEq.lean"):
+    for f in ("HelpersEq.lean", "Lifted.lean", "StorageEq.lean", "StorageRun.lean"):
         if not os.path.exists(os.path.join(LEAN, "Gen", f)):
             continue
         text = strip_comments(open(os.path.join(LEAN, "Gen", f)).read())
